@@ -417,7 +417,11 @@ func C20(c *Ctx) {
 	c.R.Rule("C20-R5", "E7", "Analyze depends on the given spec only", 1)
 	c.R.Rule("C20-R6", "E3", "Mermaid renders every node exactly once", 1)
 	c.R.Rule("C20-R7", "E6", "rendering output files start empty", 0)
+	c.R.Rule("C20-R8", "E1", "analysis and rendering leave the specification as it was given", 1)
+	c20SpecUntouched(c, "C20-R8")
 	c20Extras(c, mer, ana, withHelpers)
+	c.R.Rule("C20-R9", "E3", "the terminal nodes reported are exactly the nodes without a branch (no branching, or an empty list of branches)", 1)
+	c20Terminal(c, "C20-R9", ana, withHelpers(ana))
 	c20OutputFiles(c)
 	// ---- R4 Analyze
 	loops := flow.Loops(ana)
